@@ -188,6 +188,52 @@ class Lower:
         self.bad('statement not in the subset', st)
 
 
+def tree_counter_form(stmts):
+    """for (T i = 0; i < U.size(); ++i) { ... U[i] ... base_slot + i ... }   REST(base_slot + U.size())      with U = cls.used_by_vp
+         is   auto next_slot = base_slot; for (mp : U) { ... mp ... next_slot ...; ++next_slot; }   REST(next_slot)
+       (next_slot = base_slot + i holds at the top of every iteration; the loop makes U.size() iterations)"""
+    U = ('member', ('id', 'cls'), 'used_by_vp', False)
+    BASE = ('id', 'base_slot')
+    for k, st in enumerate(stmts):
+        if not (st[0] == 'for' and st[1] and st[1][0] == 'decl' and len(st[1][2]) == 1 and st[1][2][0][1] == ('num', 0)):
+            continue
+        i = st[1][2][0][0]
+        ok = (st[2] in (('bin', '<', ('id', i), call0(U, 'size')), ('bin', '!=', ('id', i), call0(U, 'size')))
+              and st[3] in (('un', '++', ('id', i)), ('post', '++', ('id', i))))
+        body = inline_consts(nonempty(st[4][1] if st[4][0] == 'block' else [st[4]]))
+        rest_repr = repr(stmts[:k]) + repr(body) + repr(stmts[k + 1:])
+        if not ok or "('id', 'mp')" in rest_repr or "('id', 'next_slot')" in rest_repr:
+            continue
+        if mc._assigns(body, i) or mc._mentions(body, 'continue') or mc._mentions(body, 'break'):
+            continue
+
+        def rw(n):
+            if isinstance(n, list):
+                return [rw(x) for x in n]
+            if isinstance(n, tuple):
+                if n == ('index', U, ('id', i)):
+                    return ('id', 'mp')
+                if n in (('bin', '+', BASE, ('id', i)), ('bin', '+', ('id', i), BASE)):
+                    return ('id', 'next_slot')
+                return tuple(rw(x) for x in n)
+            return n
+        body2 = rw(body)
+        if "('id', %r)" % i in repr(body2):
+            continue                       # the index is used in some other way
+
+        def rw_after(n):
+            if isinstance(n, list):
+                return [rw_after(x) for x in n]
+            if isinstance(n, tuple):
+                if n in (('bin', '+', BASE, call0(U, 'size')), ('bin', '+', call0(U, 'size'), BASE)):
+                    return ('id', 'next_slot')
+                return tuple(rw_after(x) for x in n)
+            return n
+        return (stmts[:k] + [('decl', 'auto', [('next_slot', BASE)]),
+                             ('rangefor', 'mp', U, ('block', body2 + [('expr', ('un', '++', ('id', 'next_slot')))]))] + rw_after(stmts[k + 1:]))
+    return stmts
+
+
 class ALower:
     """assign_tree_slots / the wrapper of assign_lattice_slots / assign_slots, statement by statement -> astmt (Model/MiniSlot.v)"""
     def __init__(self, fn, named=None):
@@ -217,6 +263,20 @@ class ALower:
                 neg = c[2] if c[0] == 'un' and c[1] == '!' else ('bin', {'==': '!=', '!=': '=='}[c[1]], c[2], c[3]) if c[0] == 'bin' and c[1] in ('==', '!=') else ('un', '!', c)
                 out.append(self.s(('if', False, neg, ('block', sts[i + 1:]), None)))
                 break
+            # auto v = cls.used_slots.find_first(); if (v == npos) v = 0; cls.first_slot = v;     (v then stands for cls.first_slot)
+            if (st[0] == 'decl' and len(st[2]) == 1 and st[2][0][1] == call0(('member', ('id', 'cls'), 'used_slots', False), 'find_first') and i + 2 < len(sts)):
+                v = ('id', st[2][0][0])
+                npos = ('scoped', ('tmpl', 'boost::dynamic_bitset', ['']), 'npos')
+                zero = ('expr', ('assign', '=', v, ('num', 0)))
+                a, b = sts[i + 1], sts[i + 2]
+                if (a[0] == 'if' and not a[1] and a[4] is None and a[2] in (('bin', '==', v, npos), ('bin', '==', npos, v))
+                        and nonempty(a[3][1] if a[3][0] == 'block' else [a[3]]) == [zero]
+                        and b == ('expr', ('assign', '=', ('member', ('id', 'cls'), 'first_slot', False), v))
+                        and not mc._assigns(sts[i + 3:], st[2][0][0])):
+                    out.append('ASetFirstFromUsed')
+                    sts = sts[:i + 3] + subst(sts[i + 3:], {st[2][0][0]: ('member', ('id', 'cls'), 'first_slot', False)})
+                    i += 3
+                    continue
             # auto first_slot = cls.used_slots.find_first(); cls.first_slot = first_slot == npos ? 0 : first_slot;
             if (st[0] == 'decl' and len(st[2]) == 1 and st[2][0][1] == call0(('member', ('id', 'cls'), 'used_slots', False), 'find_first') and i + 1 < len(sts)):
                 v = ('id', st[2][0][0])
@@ -267,7 +327,9 @@ class ALower:
                 b = self.body(st[3]); self.pd = None
                 return '(AForDerived %s)' % b
             if st[2] == ('id', 'classes') and self.fn == 'assign_slots':
-                return '(AForClasses %s)' % ALower(self.fn, self.named).body(subst(st[3], {st[1]: CLS}))
+                b = subst(st[3], {st[1]: CLS})
+                b = ('block', inline_consts(nonempty(b[1] if b[0] == 'block' else [b])))      # const locals of the loop body: names for pure expressions
+                return '(AForClasses %s)' % ALower(self.fn, self.named).body(b)
         if k == 'if' and not st[1]:
             c = st[2]
             if self.fn == 'assign_lattice_slots' and st[4] is None:
@@ -393,7 +455,7 @@ def main():
         def fn_body(name, names=()):
             params, body, _ = mc.find_function(src, r'\bvoid\s+compiler<Policy>::%s\b' % name, name)
             return nonempty(mc.parse_function_body(mc.drop_trace(body), names)[1])
-        tree_text = ALower('assign_tree_slots').seq(inline_consts(fn_body('assign_tree_slots')))
+        tree_text = ALower('assign_tree_slots').seq(tree_counter_form(inline_consts(fn_body('assign_tree_slots'))))
         lat_text = ALower('assign_lattice_slots').seq(fn_body('assign_lattice_slots'))
         flatb = []
         for st in fn_body('assign_slots', ('dynamic_bitset',)):
